@@ -5,7 +5,7 @@ From Coq Require Import List.
 From Coq.Strings Require Import Byte.
 From GI Require Import Lib.Bytes Gen.TxtarConsts Txtar.Txtar Txtar.TxtarFacts
   Txtar.TxtarIndex Txtar.TxtarIndexFacts Txtar.TxtarHolds Txtar.TxtarHoldsFacts
-  Lib.Utf8 Lib.Utf8Facts.
+  Lib.Utf8 Lib.Utf8Facts Lib.Utf8Trim Lib.Utf8TrimFacts.
 Import ListNotations.
 
 Theorem C03_parse_format_parse : forall s, parse (format (parse s)) = parse s.
@@ -118,3 +118,10 @@ Theorem C03_trim_space_runes : forall d,
   trim_space d = trim_space_runes d /\ trim_left d = trim_left_runes d /\ trim_right d = trim_right_runes d.
 Proof. exact trim_all_eq. Qed.
 Print Assumptions C03_trim_space_runes.
+
+(* strings.TrimSpace as the Go code computes it (indexFunc forwards; lastIndexFunc backwards
+   with DecodeLastRune, then the width of the last kept rune by decoding FORWARDS) never fails
+   and is the model's trim_space *)
+Theorem C03_trim_func_eq : forall d, trim_func d = Some (trim_space d).
+Proof. exact trim_func_eq. Qed.
+Print Assumptions C03_trim_func_eq.
